@@ -251,10 +251,10 @@ func ruleFillRuleMirror(rule string, minSwitches int) func(*Ctx) {
 
 type renaming struct {
 	local  func(*ast.Ident) string // alpha-renaming of local variables (nil = keep names)
-	idents map[string]string // identifier / selector-tail renames, e.g. left<->right, Left<->Right
-	flipIf []string          // flip comparison operators when the rendered operand mentions one of these
-	corner map[string]string // rectPath index renames "0"<->"1" ...
-	axis   bool              // swap .X <-> .Y
+	idents map[string]string       // identifier / selector-tail renames, e.g. left<->right, Left<->Right
+	flipIf []string                // flip comparison operators when the rendered operand mentions one of these
+	corner map[string]string       // rectPath index renames "0"<->"1" ...
+	axis   bool                    // swap .X <-> .Y
 }
 
 func (r *renaming) ren(s string) string {
